@@ -97,6 +97,7 @@ rc::Gen<Action> genAction(const Profile& p) {
 			if (a.kind == ACT_PLAN_REMOVE) a.x = uint8_t(*rng<int>(0, 256));
 			if (a.kind == ACT_REQUEST || a.kind == ACT_REQUEST_REL || a.kind == ACT_PLAN_APPEND) a.pay = *genPay(p.payPct);
 			if (a.kind == ACT_REQUEST_FWD) a.y = uint8_t(*rng<int>(0, 4));
+			if (a.kind == ACT_REQUEST_REL && *rng<int>(0, 100) < 35) { a.y = uint8_t(64 + *rng<int>(0, 40)); a.kind |= ACT_STICKY; }   // repeat the relative request y - 63 times, then go on
 			if (*rng<int>(0, 100) < p.chainPct) a.kind |= ACT_CHAIN;
 			if (*rng<int>(0, 100) < 6) a.kind |= ACT_STICKY;
 		}
